@@ -149,7 +149,11 @@ func (x *Exec) evalBuiltin(st *State, e *ast.CallExpr, name string) []*Value {
 			x.eval(st, a)
 		}
 		if x.noSafety == 0 {
-			x.oblige(st, "safety", fmt.Sprintf("safety.panic(%s)", x.eng.srcText(e)), x.b.False(), e.Pos(), nil)
+			var sp []string
+			if c := x.eng.cf.Contracts[x.qual]; c != nil && contains(c.SafetyProps, "none") {
+				sp = c.SafetyProps // function whose panics are outside every claimed property
+			}
+			x.oblige(st, "safety", fmt.Sprintf("safety.panic(%s)", x.eng.srcText(e)), x.b.False(), e.Pos(), sp)
 		}
 		x.assume(st, x.b.False())
 		return nil
